@@ -105,6 +105,12 @@ func (r *Run) call(st *State, fr *Frame, x *ssa.Call, b *ssa.BasicBlock, idx int
 			fr.regs[x] = res
 			return true
 		}
+		if spec == nil && strings.HasSuffix(fnPkgPath(origin), "/lib/runtime/ddprt") && len(origin.Blocks) == 1 {
+			if _, isPanic := origin.Blocks[0].Instrs[len(origin.Blocks[0].Instrs)-1].(*ssa.Panic); isPanic {
+				// an extern stub of the extracted C runtime: it must not be "executed"
+				r.unsup("C function %s is opaque (libc or not extracted) and has no contract", origin.Name())
+			}
+		}
 		if r.inlinable(origin, fr) {
 			r.inline(st, fr, origin, spec, cs, args, free, cte, cont)
 			return false
